@@ -42,13 +42,15 @@ def gen_points(rng, thorough):
         return "grid", info, {}, pts, side
     n = int(rng.integers(4, 26))
     three = rng.random() < 0.4
-    ints = rng.random() < 0.3
-    cols = {"x": rng.integers(-16, 17, size=n) / (1 if ints else 4), "y": rng.integers(-16, 17, size=n) / (1 if ints else 4),
+    ints = rng.random() < 0.35
+    idt = [np.int64, np.int32, np.int16, np.int8, np.uint8, np.uint16, np.uint32, np.uint64][int(rng.integers(0, 8))]   # any integer width, signed or not
+    unsigned = ints and np.dtype(idt).kind == "u"
+    clo = 0 if unsigned else -16
+    cols = {"x": rng.integers(clo, clo + 33, size=n) / (1 if ints else 4), "y": rng.integers(clo, clo + 33, size=n) / (1 if ints else 4),
             "f": rng.integers(0, 9, size=n) / 2.0}
     if three:
-        cols["z"] = rng.integers(-16, 17, size=n) / (1 if ints else 4)
+        cols["z"] = rng.integers(clo, clo + 33, size=n) / (1 if ints else 4)
     if ints:
-        idt = [np.int64, np.int32, np.int16, np.int8][int(rng.integers(0, 4))]       # integer coordinates may come in any integer width
         for k in ("x", "y") + (("z",) if three else ()):
             cols[k] = cols[k].astype(idt)
     df = pd.DataFrame(cols)
@@ -90,7 +92,7 @@ def run(chk):
     bystander = [None]
     for _ in range(N):
         kind, info, kw, pts, side = gen_points(rng, thorough)
-        INT_PARAMS[0] = bool(kind != "grid" and str(info["x"].dtype).startswith("int") and rng.random() < 0.6)
+        INT_PARAMS[0] = bool(kind != "grid" and info["x"].dtype.kind in "iu" and rng.random() < 0.6)
         n = len(pts)
         ranking = rng.permutation(n)
         if rng.random() < 0.3:
@@ -149,8 +151,18 @@ def run(chk):
                 poly = poly[::-1]
             k0 = int(rng.integers(0, m))
             poly = poly[k0:] + poly[:k0]
-            P = {"xy_coords": poly}
-            mk = lambda l: Polygon(poly, loc=l, data=info, **kw)
+            form = ["tuples", "tuples", "lists", "float-array", "int-array", "uint8-array", "uint16-array"][int(rng.integers(0, 7))]
+            if form.endswith("int-array") or form.startswith("uint"):
+                poly = [(float(round(a)), float(round(b))) for a, b in poly]
+                if form.startswith("uint") and min(min(v) for v in poly) < 0:
+                    sh_ = -min(min(v) for v in poly)
+                    poly = [(a + sh_, b + sh_) for a, b in poly]
+            poly_arg = {"tuples": poly, "lists": [list(v) for v in poly], "float-array": np.array(poly, dtype=float),
+                        "int-array": np.array(poly).astype(np.int64), "uint8-array": np.array(poly).astype(np.uint8),
+                        "uint16-array": np.array(poly).astype(np.uint16)}[form]
+            chk.count("polygon-vertices:" + form)
+            P = {"xy_coords": poly, "vertex_container": form}
+            mk = lambda l: Polygon(poly_arg, loc=l, data=info, **kw)
             pq = [(fr(a), fr(b)) for a, b in poly]
             if any(pq[i][1] == pq[(i + 1) % m][1] and False for i in range(m)):
                 pass
@@ -178,7 +190,7 @@ def run(chk):
                     inside.append((y - cy) ** 2 + (z - cz) ** 2 <= r_ ** 2 and cx - h_ / 2 <= x <= cx + h_ / 2)
             shape_q = f"(cylinder_in {C.cq(cx)} {C.cq(cy)} {C.cq(cz)} {C.cq(r_)} {C.cq(h_)} {'Ax' + ax[0]})"
         case = {"coords": kind, "points": [list(p) for p in pts] if kind != "grid" else f"grid side {side}", "shape": sh, "params": P, "loc": loc,
-                "ranking": ranking.tolist(), "int_dataframe": bool(kind != "grid" and str(info["x"].dtype).startswith("int"))}
+                "ranking": ranking.tolist(), "int_dataframe": bool(kind != "grid" and info["x"].dtype.kind in "iu"), "dtype": "float64" if kind == "grid" else str(info["x"].dtype)}
         # ---- run the implementation (both loc values for the partition clause)
         got = {}
         for l in (("in", "out") if loc != "line" else ("line",)):
@@ -194,6 +206,16 @@ def run(chk):
                 if rng.random() < 0.6:
                     # the same shape object is asked first about another ranking of the same length (call sequences)
                     impl.quiet(lambda: obj.get_constraint_indices(all_sensors=rng.permutation(ranking), info=info))
+                if kind != "grid" and rng.random() < 0.6:
+                    # ... and about ANOTHER dataframe of the same shape and column types (other coordinates)
+                    try:
+                        info2 = info.copy()
+                        for cname in ("x", "y") + (("z",) if kind == "df3" else ()):
+                            info2[cname] = np.roll(info[cname].to_numpy(), int(rng.integers(1, n)))[::-1].copy()
+                        impl.quiet(lambda: obj.get_constraint_indices(all_sensors=ranking.copy(), info=info2))
+                        chk.count("asked_about_another_dataframe_first")
+                    except Exception:
+                        pass
                 res = impl.quiet(lambda: obj.get_constraint_indices(all_sensors=ranking.copy(), info=info))
                 got[l] = [int(i) for i in res[0]]
                 bystander[0] = (obj, ranking.copy(), info)
